@@ -134,6 +134,37 @@ pub fn run_cfgperm(toks: &[&str]) -> String {
     res.join(" | ")
 }
 
+pub fn run_ccfgperm(toks: &[&str]) -> String {
+    sandbox_dirs();
+    let groups: Vec<Vec<String>> = if toks[4] == "-" { vec![] } else { toks[4].split('|').map(parse_args).collect() };
+    let mut res = vec![];
+    for perm in toks[5].split(';') {
+        let mut args: Vec<String> = vec![];
+        if perm != "-" {
+            for i in perm.split('.') {
+                args.extend(groups[i.parse::<usize>().unwrap()].iter().cloned());
+            }
+        }
+        let a = if args.is_empty() { "-".to_string() } else { args.iter().map(|s| tok(s)).collect::<Vec<_>>().join(",") };
+        res.push(run_ccfg(&["ccfg", toks[1], toks[2], toks[3], &a]));
+    }
+    res.join(" | ")
+}
+
+fn client_key_of(flag: &str) -> u32 {
+    match flag {
+        "-i" | "--ip-address" => 1,
+        "-p" | "--port" => 2,
+        "-b" | "--blocksize" => 3,
+        "-w" | "--windowsize" => 4,
+        "-t" | "--timeout" => 5,
+        "-rd" | "--receive-directory" => 6,
+        "-u" | "--upload" | "-d" | "--download" => 7,
+        "--keep-on-error" => 8,
+        _ => 9, // the file name
+    }
+}
+
 fn key_of(flag: &str) -> u32 {
     match flag {
         "-i" | "--ip-address" => 1,
@@ -313,12 +344,57 @@ fn perm_line(rng: &mut Rng, gs: &[Group]) -> String {
     format!("cfgperm {} {e} {i} {groups} {}", tok(cwd.to_str().unwrap()), perms.join(";"))
 }
 
+fn valid_client_groups(rng: &mut Rng, dirs: &[String]) -> Vec<Group> {
+    let pick = |rng: &mut Rng, xs: &[&str]| xs[rng.below(xs.len() as u64) as usize].to_string();
+    let mut gs = vec![];
+    let n = rng.range(1, 7);
+    for _ in 0..n {
+        let d = dirs[rng.below(dirs.len() as u64) as usize].clone();
+        let g = match rng.below(10) {
+            0 => vec![pick(rng, &["-i", "--ip-address"]), pick(rng, &["0.0.0.0", "::1", "10.0.0.9"])],
+            1 => vec![pick(rng, &["-p", "--port"]), pick(rng, &["69", "1069", "+80"])],
+            2 => vec![pick(rng, &["-b", "--blocksize"]), pick(rng, &["8", "1468", "65464"])],
+            3 => vec![pick(rng, &["-w", "--windowsize"]), pick(rng, &["1", "4", "65535"])],
+            4 => vec![pick(rng, &["-t", "--timeout"]), pick(rng, &["1", "5", "255"])],
+            5 => vec![pick(rng, &["-rd", "--receive-directory"]), d],
+            6 => vec![pick(rng, &["-u", "--upload"])],
+            7 => vec![pick(rng, &["-d", "--download"])],
+            8 => vec!["--keep-on-error".to_string()],
+            _ => vec![pick(rng, &["file.bin", "sub/x.dat", "\\a\\b"])],
+        };
+        gs.push(Group { toks: g });
+    }
+    gs
+}
+
+fn client_perm_line(rng: &mut Rng, gs: &[Group]) -> String {
+    let keys: Vec<u32> = gs.iter().map(|g| client_key_of(&g.toks[0])).collect();
+    let show = |p: &[usize]| if p.is_empty() { "-".to_string() } else { p.iter().map(|i| i.to_string()).collect::<Vec<_>>().join(".") };
+    let ident: Vec<usize> = (0..gs.len()).collect();
+    let mut perms = vec![show(&ident)];
+    for _ in 0..4 {
+        perms.push(show(&key_preserving_perm(rng, &keys)));
+    }
+    let mut all: Vec<String> = vec![];
+    for g in gs {
+        all.extend(g.toks.iter().cloned());
+    }
+    let cwd = std::env::current_dir().unwrap();
+    let (e, i) = oracle_fields(&all);
+    let groups = gs.iter().map(|g| g.toks.iter().map(|t| tok(t)).collect::<Vec<_>>().join(",")).collect::<Vec<_>>().join("|");
+    format!("ccfgperm {} {e} {i} {groups} {}", tok(cwd.to_str().unwrap()), perms.join(";"))
+}
+
 pub fn gen_cfg(rng: &mut Rng, count: u64, _tier: &str) -> Vec<String> {
     let dirs = sandbox_dirs();
     let mut out = vec![];
     for k in 0..count {
         let gs = if k % 3 == 0 { server_groups(rng, &dirs) } else { valid_server_groups(rng, &dirs) };
         out.push(perm_line(rng, &gs));
+        if k % 4 == 0 {
+            let cg = valid_client_groups(rng, &dirs);
+            out.push(client_perm_line(rng, &cg));
+        }
     }
     out.push(line("cfg", &["tftpd".to_string()]));
     out.push(line("cfg", &[]));
